@@ -26,6 +26,27 @@ DEMO[C18]="pkg/suggestion/v1beta1/goptuna|./pkg/suggestion/v1beta1/goptuna/|-run
 DEMO[C19]="pkg/db/v1beta1/postgres|./pkg/db/v1beta1/postgres/|"
 DEMO[C20]="pkg/ui/v1beta1|./pkg/ui/v1beta1/|-run TestC20"
 
+DEMO[C01b]="F:budget_lagging_cache_test.go=pkg/controller.v1beta1/seeddemo_c01b|./pkg/controller.v1beta1/seeddemo_c01b/|"
+DEMO[C02b]="F:trial_labels_demo_test.go=pkg/controller.v1beta1/experiment/seeddemo|./pkg/controller.v1beta1/experiment/seeddemo/|"
+DEMO[C03b]="F:status_util_goal_order_test.go=pkg/controller.v1beta1/experiment/util|./pkg/controller.v1beta1/experiment/util/|"
+DEMO[C04b]="F:quiescence_earlystopping_test.go=pkg/controller.v1beta1/experiment/c04bdemo,status_util_earlystopped_test.go=pkg/controller.v1beta1/experiment/util|./pkg/controller.v1beta1/experiment/c04bdemo/ ./pkg/controller.v1beta1/experiment/util/|"
+DEMO[C05b]="F:status_util_optimal_demo_test.go=pkg/controller.v1beta1/experiment/util|./pkg/controller.v1beta1/experiment/util/|-run TestOptimalTrialFollowsRefreshedObservation"
+DEMO[C06b]="F:c06b_demo_test.go=pkg/controller.v1beta1/trial/c06bdemo|./pkg/controller.v1beta1/trial/c06bdemo/|"
+DEMO[C07b]="F:c07b_demo_test.go=pkg/controller.v1beta1/trial/c07bdemo|./pkg/controller.v1beta1/trial/c07bdemo/|"
+DEMO[C08b]="F:stale_read_test.go=pkg/controller.v1beta1/suggestion/c08bdemo|./pkg/controller.v1beta1/suggestion/c08bdemo/|"
+DEMO[C09b]="F:labels_c09b_test.go=pkg/controller.v1beta1/util,c09b_e2e_test.go=pkg/controller.v1beta1/c09bdemo|./pkg/controller.v1beta1/util/ ./pkg/controller.v1beta1/c09bdemo/|"
+DEMO[C10b]="F:c10b_settings_roundtrip_test.go=pkg/controller.v1beta1/suggestion/suggestionclient|./pkg/controller.v1beta1/suggestion/suggestionclient/|-run TestC10b"
+DEMO[C11b]="F:getmetrics_demo_test.go=pkg/controller.v1beta1/trial/c11bdemo|./pkg/controller.v1beta1/trial/c11bdemo/|"
+DEMO[C12b]="F:mutate_multipod_demo_test.go=pkg/webhook/v1beta1/pod|./pkg/webhook/v1beta1/pod/|-run TestDemoNonPrimaryPodsOnlyGetTrialLabels"
+DEMO[C13b]="F:keyword_prefilter_demo_test.go=pkg/metricscollector/v1beta1/file-metricscollector|./pkg/metricscollector/v1beta1/file-metricscollector/|"
+DEMO[C14b]="F:admission_soundness_demo_test.go=pkg/webhook/v1beta1/experiment/validator|./pkg/webhook/v1beta1/experiment/validator/|-run TestDemo"
+DEMO[C15b]="F:resume_policy_update_demo_test.go=pkg/webhook/v1beta1/experiment/validator|./pkg/webhook/v1beta1/experiment/validator/|-run TestDemo"
+DEMO[C16b]="TREE|./pkg/controller.v1beta1/c16bdemo/ ./pkg/apis/controller/experiments/v1beta1/|-run C16b|Restart"
+DEMO[C17b]="F:pvc_owner_test.go=pkg/controller.v1beta1/suggestion/composer/c17bdemo|./pkg/controller.v1beta1/suggestion/composer/c17bdemo/|"
+DEMO[C18b]="F:history_roundtrip_demo_test.go=pkg/suggestion/v1beta1/goptuna|./pkg/suggestion/v1beta1/goptuna/|-run TestGoSuggestionSurvivesItsOwnHistory"
+DEMO[C19b]="F:seed_c19b_demo_test.go=pkg/db/v1beta1/postgres|./pkg/db/v1beta1/postgres/|-run SeedC19b"
+DEMO[C20b]="TREE|./pkg/ui/v1beta1/|-run TestTrialInfoIsBoundToAuthorizedNamespace"
+
 suite() { # per-test pass/fail set, timing removed
   go test -json -vet=off -count=1 -timeout 25m ./... 2>/dev/null | python3 -c '
 import sys, json
@@ -40,6 +61,7 @@ place() { # copy demo files of seed $1 into the worktree
   local ID=$1 S=/tmp/seed/$1 spec=${DEMO[$1]}; local dest=${spec%%|*}
   case $dest in
     TREE) cp -r $S/demo/pkg . ;;
+    F:*) IFS=',' read -ra PAIRS <<< "${dest#F:}"; for pr in "${PAIRS[@]}"; do f=${pr%%=*}; d=${pr#*=}; mkdir -p $d; cp $S/demo/$f $d/; done ;;
     SPECIAL) mkdir -p pkg/controller.v1beta1/experiment/c03demo; cp $S/demo/c03_reconcile_demo_test.go pkg/controller.v1beta1/experiment/c03demo/; cp $S/demo/c03_status_util_demo_test.go pkg/controller.v1beta1/experiment/util/ ;;
     *) mkdir -p $dest; cp $S/demo/*.go $dest/ ;;
   esac
